@@ -59,6 +59,7 @@ Definition current_age (h : headers) (date request_time response_time now1 : Z) 
   go_sat_add corrected_initial resident.
 
 Record stored_entry := {
+  e_id : bytes;            (* Response.ID: the key it is stored under *)
   e_status : Z;
   e_hdr : headers;
   e_body : Z;              (* ghost: which origin call produced the body *)
@@ -66,7 +67,8 @@ Record stored_entry := {
   e_recv_at : Z
 }.
 
-Record freshness := { f_stale : bool; f_age : Z; f_age_ts : Z; f_life : Z }.
+Record freshness := { f_stale : bool; f_age : Z; f_age_ts : Z; f_life : Z;
+                      f_expired : bool; f_req_max_age_exceeded : bool }.
 
 Definition is_heuristically_cacheable (code : Z) : bool :=
   (code =? 200) || (code =? 203) || (code =? 206) || (code =? 301) || (code =? 304) ||
@@ -87,7 +89,8 @@ Definition expires_header (h : headers) : bool * option Z :=
    (no blocking operation happens in between). *)
 Definition calculate_freshness (e : stored_entry) (req_cc res_cc : directives) (now : Z) : freshness :=
   match req_max_age req_cc with
-  | Some 0 => {| f_stale := true; f_age := 0; f_age_ts := now; f_life := 0 |}
+  | Some 0 => {| f_stale := true; f_age := 0; f_age_ts := now; f_life := 0;
+                 f_expired := true; f_req_max_age_exceeded := true |}
   | _ =>
       let date := date_header (e_hdr e) in
       let age := current_age (e_hdr e) date (e_req_at e) (e_recv_at e) now in
@@ -106,17 +109,24 @@ Definition calculate_freshness (e : stored_entry) (req_cc res_cc : directives) (
               then heuristic_freshness (e_hdr e) date else 0
           end
         else life0 in
+      let expired := life1 <=? age in
       let life :=
         match req_max_age req_cc with
         | Some m => if 0 <? m then Z.min life1 m else life1
         | None => life1
+        end in
+      let exceeded :=
+        match req_max_age req_cc with
+        | Some m => (0 <? m) && (m <=? age)
+        | None => false
         end in
       let min_fresh_stale :=
         match req_min_fresh req_cc with
         | Some mf => (0 <? mf) && (wrap64 (life - age) <? mf)
         | None => false
         end in
-      if min_fresh_stale then {| f_stale := true; f_age := age; f_age_ts := now; f_life := life |}
+      if min_fresh_stale then {| f_stale := true; f_age := age; f_age_ts := now; f_life := life;
+                                 f_expired := expired; f_req_max_age_exceeded := exceeded |}
       else
         let max_stale :=
           match req_max_stale_raw req_cc with
@@ -131,7 +141,8 @@ Definition calculate_freshness (e : stored_entry) (req_cc res_cc : directives) (
         let stale :=
           if stale0 && (0 <? max_stale) && (age <? Z.max (dur_add life max_stale) max_stale)
           then false else stale0 in
-        {| f_stale := stale; f_age := age; f_age_ts := now; f_life := life |}
+        {| f_stale := stale; f_age := age; f_age_ts := now; f_life := life;
+           f_expired := expired; f_req_max_age_exceeded := exceeded |}
   end.
 
 (* SetAgeHeader: Age := itoa(int(seconds of max(age + since(ts), 0))) ; Duration.Seconds() is a float,
@@ -160,14 +171,15 @@ Definition age_header_value (f : freshness) (now : Z) : bytes :=
   let adj := go_sat_add (f_age f) (Z.max (time_sub now (f_age_ts f)) 0) in
   dec_of_Z (seconds_trunc adj).
 
-(* staleIfErrorPolicy.CanStaleOnError with a single directive source *)
-Definition can_stale_on_error (f : freshness) (sie : option Z) (now : Z) : bool :=
-  match sie with
-  | Some dur =>
-      let age := go_sat_add (f_age f) (Z.max (time_sub now (f_age_ts f)) 0) in
-      age <=? go_sat_add (f_life f) dur
-  | None => false
-  end.
+(* staleIfErrorPolicy.CanStaleOnError over the directive sources given (absent/invalid = None) *)
+Definition can_stale_on_error (f : freshness) (sies : list (option Z)) (now : Z) : bool :=
+  existsb (fun sie =>
+    match sie with
+    | Some dur =>
+        let age := go_sat_add (f_age f) (Z.max (time_sub now (f_age_ts f)) 0) in
+        age <? go_sat_add (f_life f) dur
+    | None => false
+    end) sies.
 
 Definition is_stale_error_allowed (code : Z) : bool :=
   (code =? 500) || (code =? 502) || (code =? 503) || (code =? 504).
